@@ -16,20 +16,22 @@ SeqSet(s) == {s[i] : i \in DOMAIN s}
 TraceInit == /\ tid \in 1..NTraces /\ l = 1
              /\ script = H(tid).script /\ exist = {} /\ iconn = <<>> /\ oconn = <<>>
              /\ todo = <<>> /\ pass = 0 /\ frozen = FALSE
+Extra(t) == {H(t).ctrls[i].blk : i \in {j \in DOMAIN H(t).ctrls : H(t).ctrls[j].inv}}
 Sig(ri) == [j \in DOMAIN ri |-> IF ri[j].single THEN 0 - 1 ELSE Len(ri[j].refs)]
 Final(e) ==
     /\ ~frozen /\ frozen' = TRUE
-    /\ SeqSet(e.exist) = C!Blocks(script)               \* exactly the user blocks + one inverter per shortcut
-    /\ Len(e.exist) = Cardinality(C!Blocks(script))
+    /\ SeqSet(e.exist) = C!BlocksX(script, Extra(tid))               \* exactly the user blocks + one inverter per shortcut
+    /\ Len(e.exist) = Cardinality(C!BlocksX(script, Extra(tid)))
     /\ \A i \in DOMAIN e.blocks :
           LET r == e.blocks[i]  ri == C!ResolvedIns(script, r.id) IN
           /\ r.ins = ri                                  \* every reference resolved to the right object
           /\ r.conf = ri                                 \* get_conf() describes the same structure
           /\ r.sig = Sig(ri)                             \* input_signature() as well
           /\ SeqSet(r.iconn) = C!IConn(script, r.id)
-          /\ SeqSet(r.oconn) = C!OConn(script, r.id)     \* both directions of every connection
+          /\ SeqSet(r.oconn) = C!OConnX(script, Extra(tid), r.id)     \* both directions of every connection
     /\ e.dests = [i \in DOMAIN H(tid).events |-> H(tid).events[i].dest]   \* names -> blocks
-    /\ e.ctrls = [i \in DOMAIN H(tid).ctrls |-> H(tid).ctrls[i].blk]
+    /\ e.ctrls = [i \in DOMAIN H(tid).ctrls |-> IF H(tid).ctrls[i].inv THEN Len(script) + H(tid).ctrls[i].blk
+                                                ELSE H(tid).ctrls[i].blk]
     /\ UNCHANGED <<script, exist, iconn, oconn, todo, pass>>
 Frozen(e) == /\ frozen
              /\ e.add = "refused" /\ e.connect = "refused" /\ e.storage = "refused"
